@@ -14,6 +14,15 @@ impl PTree {
         match self { PTree::Leaf(v) => v.clone(), PTree::Node(l, r) => { let mut a = l.flatten(); a.extend(r.flatten()); a } }
     }
 }
+impl PTree {
+    /// the tree as a `Tree` over the interleaved words x w x w .. (for the textual encoding)
+    pub fn interleaved(&self) -> Tree {
+        match self { PTree::Leaf(v) => Tree::Leaf(v.iter().flat_map(|(a, b)| [*a, *b]).collect()), PTree::Node(l, r) => Tree::Node(Box::new(l.interleaved()), Box::new(r.interleaved())) }
+    }
+    pub fn from_interleaved(t: &Tree) -> PTree {
+        match t { Tree::Leaf(v) => PTree::Leaf(v.chunks(2).filter(|c| c.len() == 2).map(|c| (c[0], c[1])).collect()), Tree::Node(l, r) => PTree::Node(Box::new(PTree::from_interleaved(l)), Box::new(PTree::from_interleaved(r))) }
+    }
+}
 pub fn pws(v: &[(f64, f64)]) -> String { v.iter().map(|(a, b)| format!("{} {}", fw(*a), fw(*b))).collect::<Vec<_>>().join(" ") }
 
 pub fn all_ptrees(chunks: &[Vec<(f64, f64)>]) -> Vec<PTree> {
@@ -195,6 +204,7 @@ pub fn weights(rng: &mut Rng, n: usize, zero_pattern: usize) -> Vec<f64> {
 
 pub fn weighted_case<E: PairEst>(out: &mut Out, t: &PTree, trace: Trace, rng: &mut Rng) {
     if !out.next_case() { return; }
+    out.tree_comment(E::NAME, &|| t.interleaved().encode(), t.flatten().len());
     let e: E = peval(out, t, trace, rng);
     let accs = pobserve(out, &e);
     let data = t.flatten();
@@ -342,6 +352,16 @@ pub fn phuge_counts<E: PairEst>(out: &mut Out, data: &[(f64, f64)], extra: &[(f6
         out.t(E::NAME, "add", &pre, &format!("{} {}", fw(extra[0].0), fw(extra[0].1)), &words(&f));
         let mut g = e.clone(); let pg = words(&g); g.merge(&small); out.t(E::NAME, "merge", &pg, &words(&small), &words(&g));
         let mut h = small.clone(); let ph = words(&h); h.merge(&e); out.t(E::NAME, "merge", &ph, &words(&e), &words(&h));
+        {
+            let len_of = |x: &E| x.accessors().iter().find(|a| a.stat == "len").map(|a| a.val.word());
+            if let (Some(_), Some(ls)) = (len_of(&e), len_of(&small)) {
+                let ls: f64 = ls[1..].parse().unwrap_or(0.0);
+                let want = |k: f64| Some(iw((nn + k) as i64));
+                if nn < 9e15 { out.x(len_of(&g) == want(ls) && len_of(&h) == want(ls) && len_of(&f) == want(1.0), || format!("{}: lengths do not add at count {}: {:?} {:?} {:?}", E::NAME, nn, len_of(&g), len_of(&h), len_of(&f))); }
+            }
+            let mut z = e.clone(); z.merge(&E::new());
+            out.x(words(&z) == words(&e), || format!("{}: merging the empty estimator at count {} changed the state", E::NAME, nn));
+        }
         if round >= 20 {
             for (nm, s) in [("add", &f), ("merge(short chunk)", &g), ("short chunk.merge", &h)] {
                 for a in s.accessors() {
@@ -372,8 +392,9 @@ fn correlated(rng: &mut Rng, n: usize, rho: f64, offx: f64, offy: f64, sx: f64, 
     }).collect()
 }
 
-fn cov_case(out: &mut Out, t: &PTree, trace: Trace, rng: &mut Rng) {
+pub fn cov_case(out: &mut Out, t: &PTree, trace: Trace, rng: &mut Rng) {
     if !out.next_case() { return; }
+    out.tree_comment("Covariance", &|| t.interleaved().encode(), t.flatten().len());
     let e: Covariance = peval(out, t, trace, rng);
     let accs = pobserve(out, &e);
     let data = t.flatten();
